@@ -239,6 +239,7 @@ struct Session {
     names: Vec<String>,    // preference names used by prefs_hash / prefs_all (set by def_names)
     ids: Vec<String>,      // ids of the MathML returned by the last successful set_mathml, in document order
     old_ids: Vec<String>,  // ids of the one before
+    last_routed: String,   // the id answered by the last successful get_navigation_node_from_braille_position (${ROUTED})
 }
 
 fn copy_dir(from: &Path, to: &Path) -> std::io::Result<()> {
@@ -278,6 +279,7 @@ impl Session {
             names: Vec::new(),
             ids: Vec::new(),
             old_ids: Vec::new(),
+            last_routed: String::new(),
         }
     }
 
@@ -289,6 +291,9 @@ impl Session {
 
     fn subst(&self, s: &str) -> String {
         let mut out = s.replace("$RULES", &self.rules);
+        if out.contains("${ROUTED}") {
+            out = out.replace("${ROUTED}", if self.last_routed.is_empty() { "no-routed-id" } else { &self.last_routed });
+        }
         // ${ID:n} / ${OLDID:n}: the n-th id (modulo the number of ids) of the current / previous expression
         for (pat, list) in [("${ID:", &self.ids), ("${OLDID:", &self.old_ids)] {
             while let Some(i) = out.find(pat) {
@@ -418,10 +423,13 @@ impl Session {
             "nav_mathml" => res_of(get_navigation_mathml(), |(s, o)| json!([s, o])),
             "nav_id" => res_of(get_navigation_mathml_id(), |(s, o)| json!([s, o])),
             "braille_pos" => res_of(get_braille_position(), |(s, e)| json!([s, e])),
-            "node_from_braille" => res_of(
-                get_navigation_node_from_braille_position(op["pos"].as_u64().unwrap_or(0) as usize),
-                |(s, o)| json!([s, o]),
-            ),
+            "node_from_braille" => {
+                let r = get_navigation_node_from_braille_position(op["pos"].as_u64().unwrap_or(0) as usize);
+                if let Ok((id, _)) = &r {
+                    self.last_routed = id.clone();
+                }
+                res_of(r, |(s, o)| json!([s, o]))
+            }
             // test-support entry used by the repository's own tests to pin "user" preferences
             "set_user_pref" => {
                 let (n, v) = (self.s(op, "name"), self.s(op, "value"));
